@@ -136,6 +136,135 @@ func converge(w *hist.World, g *hist.Gen) {
 	}
 }
 
+// convergePinned is the convergence clause from a state in which only part of
+// the world is dead: some subscriptions and topics are kept alive, and what they
+// need (their topic's row even if that topic was deleted, a deleted dead-letter
+// topic they still name, their outstanding deliveries and those deliveries'
+// messages) must stay - while everything dead that nothing live needs must still
+// be reclaimed. One batch size is used for the whole case (an operator configures
+// one): a job whose batch can be filled by rows it then does not remove would
+// starve the reclaimable rows behind them.
+func convergePinned(w *hist.World, g *hist.Gen) {
+	r := w.R
+	var subs, topics []string
+	for n := range w.Subs {
+		subs = append(subs, n)
+	}
+	for n := range w.Topics {
+		topics = append(topics, n)
+	}
+	sortStr(subs)
+	sortStr(topics)
+	for _, n := range subs {
+		if r.Intn(5) < 2 {
+			w.DeleteSub(n)
+		}
+	}
+	for _, n := range topics {
+		if r.Intn(5) < 4 {
+			w.DeleteTopic(n)
+		}
+	}
+	w.Jump(2*24*time.Hour + time.Hour)
+	start := time.Now()
+	d := must(rig.TakeDump(w.E.RawDB()))
+	rows := len(d["deliveries"]) + len(d["messages"]) + len(d["subscriptions"]) + len(d["topics"])
+	rounds := rows + 2
+	batch := []int{1, 1, 2, 100}[r.Intn(4)]
+	ages := []time.Duration{time.Second, time.Hour, 24 * time.Hour}
+	lastErr := map[string]string{}
+	done := 0
+	for i := 0; i < rounds; i++ {
+		order := r.Perm(len(hist.PruneJobs))
+		deleted := 0
+		lastErr = map[string]string{}
+		for _, j := range order {
+			n, err := w.RunJob(hist.PruneJobs[j], ages[r.Intn(3)], batch)
+			deleted += n
+			if err != nil {
+				lastErr[hist.PruneJobs[j]] = err.Error()
+			}
+		}
+		done = i + 1
+		if deleted == 0 && len(lastErr) == 0 {
+			break
+		}
+	}
+	// what must be gone: decided from the final rows alone, with a margin that
+	// keeps anything that became dead during the rounds out of the claim
+	d = must(rig.TakeDump(w.E.RawDB()))
+	old := start.Add(-25 * time.Hour)
+	oldT := func(v string) bool {
+		t, err := time.Parse(time.RFC3339Nano, v)
+		return err == nil && t.Before(old)
+	}
+	goSub := map[string]bool{}
+	for _, s := range d["subscriptions"] {
+		if oldT(s["deleted_at"]) {
+			goSub[s["id"]] = true
+		}
+	}
+	goDel := map[string]bool{}
+	delsOfMsg := map[string]int{}
+	stayDelsOfMsg := map[string]int{}
+	stayDelsOfSub := map[string]int{}
+	for _, x := range d["deliveries"] {
+		exp, err := time.Parse(time.RFC3339Nano, x["expires_at"])
+		gone := goSub[x["subscription_id"]] || oldT(x["completed_at"]) || (err == nil && exp.Before(start))
+		delsOfMsg[x["message_id"]]++
+		if gone {
+			goDel[x["id"]] = true
+		} else {
+			stayDelsOfMsg[x["message_id"]]++
+			stayDelsOfSub[x["subscription_id"]]++
+		}
+	}
+	var left []string
+	count := func(what string, n int) {
+		if n > 0 {
+			left = append(left, fmt.Sprintf("%d %s", n, what))
+		}
+	}
+	count("reclaimable deliveries", len(goDel))
+	nm := 0
+	for _, m := range d["messages"] {
+		if stayDelsOfMsg[m["id"]] == 0 && oldT(m["published_at"]) {
+			nm++
+		}
+	}
+	count("reclaimable messages", nm)
+	ns := 0
+	subOfTopic := map[string]int{}
+	dlPin := map[string]int{}
+	for _, s := range d["subscriptions"] {
+		if goSub[s["id"]] && stayDelsOfSub[s["id"]] == 0 {
+			ns++
+			continue
+		}
+		subOfTopic[s["topic_id"]]++
+		if s["deleted_at"] == "NULL" && s["dead_letter_topic_id"] != "NULL" {
+			dlPin[s["dead_letter_topic_id"]]++
+		}
+	}
+	count("reclaimable soft-deleted subscriptions", ns)
+	nt := 0
+	for _, t := range d["topics"] {
+		if oldT(t["deleted_at"]) && subOfTopic[t["id"]] == 0 && dlPin[t["id"]] == 0 {
+			nt++
+		}
+	}
+	if len(d["snapshots"]) > 0 {
+		nt = 0 // a snapshot row pins its topic: the recorded finding of the full variant
+	}
+	count("reclaimable soft-deleted topics", nt)
+	w.Stats["pinned_convergence_rounds"] += int64(done)
+	w.Stats["pinned_convergence_rows_at_start"] += int64(rows)
+	w.Stats["pinned_convergence_rows_kept"] += int64(len(d["deliveries"]) + len(d["messages"]) + len(d["subscriptions"]) + len(d["topics"]))
+	if len(left) > 0 || len(lastErr) > 0 {
+		w.Violate("C15", "does-not-converge:partly-live-state", "with part of the world kept alive, after %d rounds of all prune jobs (batch %d, everything dead for > 2 days) there is still %v that nothing live needs; job errors in the last round: %v", done, batch, left, lastErr)
+	}
+}
+
 func sortStr(s []string) {
 	for i := 1; i < len(s); i++ {
 		for j := i; j > 0 && s[j] < s[j-1]; j-- {
@@ -269,7 +398,11 @@ func TestC15(t *testing.T) {
 		}
 		if i%2 == 0 {
 			// (a) + (c): job-heavy history with row-diff checks, then convergence
-			hist.RunHistoryOpt(t, col, "C15", ps[0], seed, func(w *hist.World) { w.CheckJobs = true }, converge)
+			fin := converge
+			if i%4 == 2 {
+				fin = convergePinned
+			}
+			hist.RunHistoryOpt(t, col, "C15", ps[0], seed, func(w *hist.World) { w.CheckJobs = true }, fin)
 			continue
 		}
 		// (b) twin pair
